@@ -25,9 +25,9 @@ theorem lines_accepted_fit (base cur : Int) (h : linesRefused base cur = false) 
 /-- a unit the code test of `epilog` lets pass has less than 2^16 bytes of code (function code + initialisers) -/
 theorem code_accepted_fit (p i : Nat) (h : codeRefused p i = false) : p + i < lineMod := by
   have hm : ushrtMax + 1 = lineMod := ushrtMax_lineMod
-  have : ¬ (p + i + 8 > ushrtMax) := by
-    intro hc
-    simp [codeRefused, hc] at h
+  -- whatever slack the source adds to the two sizes (it is part of the transcribed test), acceptance bounds their sum
+  unfold codeRefused at h
+  have h' := of_decide_eq_false h
   omega
 
 /-- **compile_roundtrip_accepted** (full statement; closes finding C18-F3).  For EVERY compilation unit that `epilog()`
@@ -52,9 +52,10 @@ theorem compile_roundtrip_accepted (main : Nat) (evs : List LexEvN) (ems : List 
     omega
   exact compile_roundtrip main evs ems hfit htbl hsize off h1 h2
 
-/-- non-vacuity of the acceptance tests: 65535 lines pass, 65536 do not; 65527 bytes of code pass, 65528 do not -/
-example : linesRefused 0 65535 = false ∧ linesRefused 40000 25536 = true ∧
-    codeRefused 65527 0 = false ∧ codeRefused 60000 5528 = true := by decide
+/-- non-vacuity of the acceptance tests, relative to the regenerated limit: `USHRT_MAX` lines pass, one more does not
+    (wherever the lines are: main file or includes); an empty program passes, `USHRT_MAX` bytes of code do not -/
+example : linesRefused 0 ushrtMax = false ∧ linesRefused 40000 ((ushrtMax : Int) - 39999) = true ∧
+    codeRefused 0 0 = false ∧ codeRefused ushrtMax 0 = true := by decide
 
 /-! ## the scan of `A_FILE_INFO` in `program_file_id` -/
 
